@@ -101,6 +101,8 @@ def model_seq_to_map(X, val):
 def model_map_to_seq(X, val):
     if X is None or X[0] != 'm':
         return UNCHANGED, X
+    if any(a[0] != 's' for a, b in X[2]):
+        return UNCHANGED, X        # a key that is a collection: not a mapping of the expected kind
     if any(not strkey(a) for a, b in X[2]) or len({a[2] for a, b in X[2]}) != len(X[2]):
         return OUTSIDE, None
     items = []
@@ -336,6 +338,12 @@ def contents(tier):
             yield M([(S('str', keys[i]), v) for i, v in enumerate(vals)])
     yield M([(S('int', '5'), m(('v', 1)))])
     yield M([(S('str', 'k1'), m(('v', 1))), (S('str', 'k1'), m(('v', 2)))])
+    # keys that are collections: "not of the expected kind", whatever the items are (mappings, scalars) and with or
+    # without a value attribute
+    for v in (m(('v', 1)), m(('id', S('str', 'k')), ('v', 1)), S('int', '3'), S('str', 'x'), m()):
+        yield M([(Q([S('str', 'k1'), S('str', 'k2')]), v)])
+        yield M([(S('str', 'k1'), m(('v', 1))), (Q([S('str', 'k2')]), v)])
+        yield M([(M([(S('str', 'k'), S('int', '1'))]), v), (S('str', 'k2'), v)])
 
 
 KEYSETS = ['a', 'a_b', 'a-b', 'a_b-c', '_', '-', 'a__b', 'x-y-z', '']
